@@ -1,6 +1,7 @@
 #ifndef HEX_ASM_HPP
 #define HEX_ASM_HPP
 
+#include <algorithm>
 #include <cctype>
 #include <cstdio>
 #include <cstdlib>
@@ -230,8 +231,7 @@ static int numNibbles(int value) {
 /// the length of the encoding reduces the range that must be represented, and
 /// for negative references the encoding length adds to the range that must be
 /// represented.
-static int instrLen(int labelOffset, int byteOffset) {
-  int length = 1;
+static int instrLen(int labelOffset, int byteOffset, int length = 1) {
   while (length < numNibbles(labelOffset - byteOffset - length)) {
     length++;
   }
@@ -350,17 +350,23 @@ class InstrLabel : public Directive {
   std::string label;
   int labelValue;
   bool relative;
+  size_t length;
 public:
   InstrLabel(Token token, std::string label, bool relative) :
-      Directive(token), label(label), relative(relative) {}
+      Directive(token), label(label), labelValue(0), relative(relative), length(1) {}
   InstrLabel(Location location, Token token, std::string label, bool relative) :
-      Directive(location, token), label(label), relative(relative) {}
+      Directive(location, token), label(label), labelValue(0), relative(relative), length(1) {}
   void setLabelValue(int newValue) { labelValue = newValue; }
+  /// Update the operand value and the encoded length, return true if either changed.
+  bool update(int newValue, size_t newLength) {
+    bool changed = newValue != labelValue || newLength != length;
+    labelValue = newValue;
+    length = newLength;
+    return changed;
+  }
   bool operandIsLabel() const { return true; }
   bool isRelative() const { return relative; }
-  size_t getSize() const {
-    return (labelValue < 0 && numNibbles(labelValue) == 1) ? 2 : numNibbles(labelValue);
-  }
+  size_t getSize() const { return length; }
   int getValue() const { return labelValue; }
   std::string getLabel() const { return label; }
   std::string toString() const {
@@ -728,28 +734,38 @@ class CodeGen {
     }
   }
 
-  /// Iteratively update label values until the program size does not change.
-  /// Return the final size of the program.
+  static bool isLabelToken(Token token) {
+    return token == Token::IDENTIFIER || token == Token::FUNC || token == Token::PROC;
+  }
+
+  /// Iteratively update label values, operand values and instruction lengths
+  /// until nothing changes. All label references start with the shortest
+  /// encoding and only ever grow, so the iteration terminates.
   void resolveLabels() {
-    int lastSize = -1;
-    int byteOffset = 0;
-    //int count = 0;
-    while (lastSize != byteOffset) {
-      //std::cout << "Resolving labels iteration " << count++ << "\n";
-      lastSize = byteOffset;
-      byteOffset = 0;
-      for (auto &directive : program) {
-        if (directive->getToken() == Token::DATA) {
-          // Data must be on 4-byte boundaries.
-          if (byteOffset & 0x3) {
-            byteOffset += 4 - (byteOffset & 0x3);
+    bool changed = true;
+    for (size_t pass = 0; changed; pass++) {
+      // The first pass only assigns label values using the shortest encodings.
+      changed = (pass == 0);
+      int byteOffset = 0;
+      for (size_t i = 0; i < program.size(); i++) {
+        auto &directive = program[i];
+        bool isLabel = isLabelToken(directive->getToken());
+        // Data must be on 4-byte boundaries and a label placed directly before
+        // data names the aligned address.
+        bool align = directive->getToken() == Token::DATA;
+        if (isLabel) {
+          size_t next = i + 1;
+          while (next < program.size() && isLabelToken(program[next]->getToken())) {
+            next++;
           }
+          align = next < program.size() && program[next]->getToken() == Token::DATA;
+        }
+        if (align && (byteOffset & 0x3)) {
+          byteOffset += 4 - (byteOffset & 0x3);
         }
         // Update the label value.
-        if (directive->getToken() == Token::IDENTIFIER ||
-            directive->getToken() == Token::FUNC ||
-            directive->getToken() == Token::PROC) {
-          dynamic_cast<Label*>(directive.get())->setLabelValue(byteOffset);
+        if (isLabel) {
+          changed |= dynamic_cast<Label*>(directive.get())->setLabelValue(byteOffset);
         }
         // Update the label operand value of an instruction, accounting for
         // relative and absolute references.
@@ -758,25 +774,34 @@ class CodeGen {
           if (labelMap.count(instrLabel->getLabel()) == 0) {
             throw UnknownLabelError(directive->getLocation(), instrLabel->getLabel());
           }
-          int labelValue = labelMap[instrLabel->getLabel()]->getValue();
-          if (instrLabel->isRelative()) {
-            int offset = labelValue - byteOffset;
-            //std::cout << "label value " << labelValue
-            //          << " byteOffset " << byteOffset
-            //          << " offset " << offset
-            //          << " instrlen " << instrLen(labelValue, byteOffset) << "\n";
-            if (offset >= 0) {
-              instrLabel->setLabelValue(offset - instrLen(labelValue, byteOffset));
+          if (pass > 0) {
+            int labelValue = labelMap[instrLabel->getLabel()]->getValue();
+            int length = instrLabel->getSize();
+            int value;
+            if (instrLabel->isRelative()) {
+              // The operand is relative to the end of the instruction, so it
+              // depends on the length: grow the length until the operand fits.
+              length = instrLen(labelValue, byteOffset, length);
+              value = labelValue - byteOffset - length;
             } else {
-              instrLabel->setLabelValue(offset - instrLen(labelValue, byteOffset));
+              value = labelValue >> 2;
+              length = std::max(length, numNibbles(value));
             }
-          } else {
-            assert((labelValue & 0x3) == 0 && "absolute label value is not word aligned");
-            instrLabel->setLabelValue(labelValue >> 2);
+            changed |= instrLabel->update(value, length);
           }
         }
         directive->setByteOffset(byteOffset);
         byteOffset += directive->getSize();
+      }
+    }
+    // Absolute references are word addresses.
+    for (auto &directive : program) {
+      if (directive->operandIsLabel()) {
+        auto instrLabel = dynamic_cast<InstrLabel*>(directive.get());
+        if (!instrLabel->isRelative() &&
+            (labelMap[instrLabel->getLabel()]->getValue() & 0x3) != 0) {
+          throw Error(directive->getLocation(), "absolute reference to a label that is not word aligned");
+        }
       }
     }
   }
